@@ -25,6 +25,7 @@ import (
 	asclientsetv1 "github.com/pingcap/advanced-statefulset/client/client/clientset/versioned/typed/apps/v1"
 	appsv1 "k8s.io/api/apps/v1"
 	autoscalingv1 "k8s.io/api/autoscaling/v1"
+	apierrors "k8s.io/apimachinery/pkg/api/errors"
 	metav1 "k8s.io/apimachinery/pkg/apis/meta/v1"
 	"k8s.io/apimachinery/pkg/types"
 	utilruntime "k8s.io/apimachinery/pkg/util/runtime"
@@ -164,6 +165,7 @@ type hijackWatch struct {
 	sync.Mutex
 	source  watch.Interface
 	result  chan watch.Event
+	done    chan struct{}
 	stopped bool
 }
 
@@ -171,6 +173,7 @@ func newHijackWatch(source watch.Interface) watch.Interface {
 	w := &hijackWatch{
 		source: source,
 		result: make(chan watch.Event),
+		done:   make(chan struct{}),
 	}
 	go w.receive()
 	return w
@@ -181,6 +184,7 @@ func (w *hijackWatch) Stop() {
 	defer w.Unlock()
 	if !w.stopped {
 		w.stopped = true
+		close(w.done)
 		w.source.Stop()
 	}
 }
@@ -191,21 +195,34 @@ func (w *hijackWatch) receive() {
 	defer utilruntime.HandleCrash()
 	for {
 		select {
+		case <-w.done:
+			return
 		case event, ok := <-w.source.ResultChan():
 			if !ok {
 				return
 			}
-			asts, ok := event.Object.(*asv1.StatefulSet)
-			if !ok {
-				panic("unreachable")
+			out := event
+			// Events whose payload is not a StatefulSet (error events carry a
+			// *metav1.Status) are relayed as they are.
+			if asts, ok := event.Object.(*asv1.StatefulSet); ok {
+				sts, err := ToBuiltinStatefulSet(asts)
+				if err != nil {
+					out = watch.Event{
+						Type:   watch.Error,
+						Object: &apierrors.NewInternalError(err).ErrStatus,
+					}
+				} else {
+					out = watch.Event{
+						Type:   event.Type,
+						Object: sts,
+					}
+				}
 			}
-			sts, err := ToBuiltinStatefulSet(asts)
-			if err != nil {
-				panic(err)
-			}
-			w.result <- watch.Event{
-				Type:   event.Type,
-				Object: sts,
+			// do not block forever on a consumer that stopped the watch
+			select {
+			case w.result <- out:
+			case <-w.done:
+				return
 			}
 		}
 	}
